@@ -37,6 +37,9 @@ def run(prop: str, tier: str) -> int:
             traceback.print_exc()
             rep.analysis_errors.append("internal error in the checker (see traceback)")
             explanation = (mod.__doc__ or "").strip().split("\n\n")[0] or "rule evaluation stopped early (see analysis_errors)"
+        from . import memo_rule
+
+        rep.run(memo_rule.check, idx, rep, prop)
         if tier == "thorough":
             from . import mutprobe, selftest
 
